@@ -84,7 +84,10 @@ func (t *Transcript) ComputeChallenge(challengeID string) ([]byte, error) {
 
 	// if the challenge was already computed we return it
 	if challenge.isComputed {
-		return challenge.value, nil
+		// return a copy: the caller must not be able to alter the cached value
+		res := make([]byte, len(challenge.value))
+		copy(res, challenge.value)
+		return res, nil
 	}
 
 	// reset before populating the internal state
